@@ -13,4 +13,6 @@ CONSTANTS
   LateTgt = {}
   SeedFix = TRUE
   Depth = 8
+  MaxIdle = 0
+  HoldClose = FALSE
 CHECK_DEADLOCK FALSE
